@@ -219,6 +219,8 @@ type JApp struct {
 	Inc            int      `json:"inc"`
 	LastConfIdx    uint64   `json:"lastConfIdx"` // index of the newest applied conf change (durable app state)
 	AppConf        JConf    `json:"appConf"`     // app's durable view of the config at appliedDurable
+	Created        bool     `json:"created"`
+	SD             *JDisk   `json:"sd,omitempty"` // synced image of the storage, when it differs from the live one
 	_              struct{} `json:"-"`
 }
 
@@ -268,21 +270,21 @@ type JCluster struct {
 }
 
 type Event struct {
-	L     int      `json:"l"`
-	Tr    int      `json:"tr"`
-	Act   string   `json:"act"`
-	Node  uint64   `json:"node"`
-	Inc   int      `json:"inc"`
-	A     JArgs    `json:"a"`
-	Ret   string   `json:"ret"`
-	Panic string   `json:"panic"`
-	N     JNode    `json:"n"`
-	D     JDisk    `json:"d"`
-	P     JApp     `json:"p"`
+	L     int       `json:"l"`
+	Tr    int       `json:"tr"`
+	Act   string    `json:"act"`
+	Node  uint64    `json:"node"`
+	Inc   int       `json:"inc"`
+	A     JArgs     `json:"a"`
+	Ret   string    `json:"ret"`
+	Panic string    `json:"panic"`
+	N     JNode     `json:"n"`
+	D     JDisk     `json:"d"`
+	P     JApp      `json:"p"`
 	Rd    *JReady   `json:"rd,omitempty"` // only for act=Ready
 	Cl    *JCluster `json:"cl,omitempty"` // only for act=Init
-	Det   bool     `json:"det"`  // C19: outputs equal to the shadow replica's
-	NetSz int      `json:"netSz"`
+	Det   bool      `json:"det"`          // C19: outputs equal to the shadow replica's
+	NetSz int       `json:"netSz"`
 }
 
 const noLimitU = ^uint64(0)
